@@ -181,7 +181,8 @@ FpxCodec(e) ==
 (* ---- points *)
 CurveOf(e) == [p |-> FPrime(e), a |-> FAbs(e, e.ca), b |-> FAbs(e, e.cb)]
 SgOf(e) == IF e.pairf = 1 THEN SgHalf ELSE SgParity
-IsPoint(e, R, Q) == PNormal(e, R) /\ PEq(PAbs(e, R), Q)
+(* a decoded point: reduced coordinates, the right abstract value (any coordinate system) *)
+IsPoint(e, R, Q) == PCanon(e, R) /\ PEq(PAbs(e, R), Q)
 (* the compressed OBJECT of ep_pck / ep_upk: x, raw y in {0, 1}, z = 1, affine *)
 IsPacked(e, R, x, bit) == /\ PCanon(e, R) /\ FAbs(e, R.x) = x /\ R.c = 1 /\ FAbs(e, R.z) = <<1>>
                           /\ BNorm(R.y) = (IF bit = 1 THEN <<1>> ELSE <<>>)
@@ -252,12 +253,60 @@ Ep2CodecSk(e, sk) ==
             LET cl == Dec2Class(e.in, c, e.fb) IN
             IF cl = "bad" THEN Failed(e)
             ELSE LET Q == P2Abs(e, e.R) IN
-                 /\ Clean(e) /\ P2Normal(e, e.R) /\ IsDecPoint2(e.in, cl, Q, c, e.fb)
+                 /\ Clean(e) /\ P2Canon(e, e.R) /\ IsDecPoint2(e.in, cl, Q, c, e.fb)
                  /\ e.rerr = 0 /\ e.g = 1
                  /\ IF sk = "ietf" THEN e.re = e.in
                     ELSE e.re = EncPoint2(Q, cl = "cmp", c, e.fb, sk)
       [] OTHER -> FALSE
 IsEp2Op(op) == op \in {"ep2_size_bin", "ep2_write_bin", "ep2_read_bin"}
+
+(* ---- Edwards points: raw [x, y, z, c]; c = 1 affine, otherwise (x/z, y/z).  ev = variant of the  *)
+(* reader: sg (sign function), neutral (the long forms of the neutral element are accepted),        *)
+(* zsign (x = 0 returned although the sign bit asks for the other root); EdStrict is the spec        *)
+EdCurveOf(e) == [p |-> FPrime(e), a |-> FAbs(e, e.ea), d |-> FAbs(e, e.ed)]
+EdAbs(e, P) ==
+    LET p == FPrime(e)
+        z == FAbs(e, P.z)
+        x == FAbs(e, P.x)
+        y == FAbs(e, P.y)
+    IN  IF P.c = 1 THEN EdPt(x, y)
+        ELSE LET zi == FInv(z, p) IN EdPt(FMul(x, zi, p), FMul(y, zi, p))
+EdCanon(e, P) == FCanon(e, P.x) /\ FCanon(e, P.y) /\ FCanon(e, P.z) /\ FAbs(e, P.z) # <<>>
+EdValid(Q, ec) == Q.inf \/ EdOnCurve(Q, ec)
+EdStrict == [sg |-> SgParity, neutral |-> FALSE, zsign |-> FALSE]
+(* the reader's verdict and value under variant ev *)
+EdDecV(s, ec, fb, ev) ==
+    LET d == EdDec(s, ec, fb, ev.sg) IN
+    IF d.ok THEN d
+    ELSE IF Len(s) = fb + 1 /\ s[1] \in {2, 3} /\ BLt(BFromBE(SubSeq(s, 2, fb + 1)), ec.p) THEN
+        LET y  == BFromBE(SubSeq(s, 2, fb + 1))
+            d0 == EdDecompress(y, 0, ec, ev.sg)
+        IN  \* only x = 0 can fail on the sign alone; the point is (0, 1) (neutral) or (0, -1)
+            IF d0.ok /\ d0.v.x = <<>> /\ (s[1] = 2 \/ ev.zsign) /\ (~d0.v.inf \/ ev.neutral)
+               /\ (s[1] = 2 => d0.v.inf) THEN d0 ELSE Bad
+    ELSE IF Len(s) = 2 * fb + 1 /\ s[1] = 4 /\ ev.neutral
+            /\ BFromBE(SubSeq(s, 2, fb + 1)) = <<1>> /\ BFromBE(SubSeq(s, fb + 2, 2 * fb + 1)) = <<>>
+         THEN Ok(EdNeutral)
+    ELSE Bad
+EdCodecV(e, ev) ==
+    LET ec == EdCurveOf(e) IN
+    CASE e.op = "ed_size_bin" ->
+            LET Q == EdAbs(e, e.P) IN
+            EdCanon(e, e.P) /\ EdValid(Q, ec) /\ Clean(e) /\ e.size = EdEncSize(Q, e.pack # 0, e.fb)
+      [] e.op = "ed_write_bin" ->
+            LET Q == EdAbs(e, e.P)
+                z == EdEncSize(Q, e.pack # 0, e.fb)
+            IN  /\ EdCanon(e, e.P) /\ EdValid(Q, ec)
+                /\ e.size = z /\ e.g = 1
+                /\ IF e.len < z THEN BufErr(e)
+                   ELSE Clean(e) /\ Prefix(e.out, z) = EdEnc(Q, e.pack # 0, ec, e.fb, ev.sg)
+      [] e.op = "ed_read_bin" ->
+            LET d == EdDecV(e.in, ec, e.fb, ev) IN
+            IF ~d.ok THEN Failed(e)
+            ELSE /\ Clean(e) /\ EdCanon(e, e.R) /\ EdAbs(e, e.R) = d.v
+                 /\ (~ev.neutral /\ ~ev.zsign) => (e.rerr = 0 /\ e.re = e.in /\ e.g = 1)
+      [] OTHER -> FALSE
+IsEdOp(op) == op \in {"ed_size_bin", "ed_write_bin", "ed_read_bin"}
 
 IsBnOp(op)  == op \in {"bn_size_bin", "bn_write_bin", "bn_read_bin", "bn_write_raw", "bn_read_raw",
                        "bn_size_str", "bn_write_str", "bn_read_str"}
@@ -274,6 +323,7 @@ CodecAccept(e) ==
     ELSE IF IsFpxOp(e.op) THEN FpxCodec(e)
     ELSE IF IsEpOp(e.op) THEN EpCodec(e)
     ELSE IF IsEp2Op(e.op) THEN Ep2CodecSk(e, "ietf")
+    ELSE IF IsEdOp(e.op) THEN EdCodecV(e, EdStrict)
     ELSE FALSE
 
 (***************************************************************************)
@@ -300,6 +350,11 @@ CodecAccept(e) ==
 (*                                        left as (a0, raw bit)              *)
 (*   C07-fp2-upk-assumes-qnr-minus-one    a1^2 = 1 - a0^2 used when i^2 # -1 *)
 (*   C07-fp2-read-bin-zero-sign           a1 = 0 with sign byte 1 accepted   *)
+(*  Edwards points (ed_pck / ed_upk / ed_read_bin):                          *)
+(*   C07-ed-compress-montgomery-parity    sign bit = parity of x*R mod p     *)
+(*   C07-ed-read-bin-neutral-long-form    04 1 0 and 02 1 decode to the      *)
+(*                                        neutral element (canonically 00)   *)
+(*   C07-ed-read-bin-zero-sign            x = 0 with sign bit 1 accepted     *)
 (***************************************************************************)
 UsesSign(e) == \/ e.op \in {"ep_pck", "ep_upk"}
                \/ (e.op = "ep_write_bin" /\ e.pack # 0)
@@ -329,10 +384,24 @@ Fp2KnownKeys(e) ==
     IF Vs = {} THEN {}
     ELSE VKeys(CHOOSE v \in Vs : \A u \in Vs : VCost(v) <= VCost(u))
 
+EdVariants(e) ==
+    {[sg |-> g, neutral |-> nt, zsign |-> zs] :
+        g \in ({SgParity} \cup (IF e.mont = 1 THEN {SgMont(BMod(FR(e), FPrime(e)))} ELSE {})),
+        nt \in BOOLEAN, zs \in BOOLEAN}
+EdVCost(v) == B2N(v.sg.kind = "mont") + B2N(v.neutral) + B2N(v.zsign)
+EdVKeys(v) == (IF v.sg.kind = "mont" THEN {"C07-ed-compress-montgomery-parity"} ELSE {})
+              \cup (IF v.neutral THEN {"C07-ed-read-bin-neutral-long-form"} ELSE {})
+              \cup (IF v.zsign THEN {"C07-ed-read-bin-zero-sign"} ELSE {})
+EdKnownKeys(e) ==
+    LET Vs == {v \in EdVariants(e) : EdCodecV(e, v)} IN
+    IF Vs = {} THEN {}
+    ELSE EdVKeys(CHOOSE v \in Vs : \A u \in Vs : EdVCost(v) <= EdVCost(u))
+
 (* the set of known-finding keys that together explain a rejected event ({} = none) *)
 CodecKnownKeys(e) ==
     IF Has(e, "crash") THEN {}
     ELSE IF e.op \in {"fp2_read_bin", "fp2_write_bin"} THEN Fp2KnownKeys(e)
+    ELSE IF IsEdOp(e.op) THEN EdKnownKeys(e)
     ELSE IF IsEp2Op(e.op) THEN
         (IF e.op # "ep2_size_bin" /\ Ep2CodecSk(e, "y1only") THEN {"C07-ep2-pck-sign-y1-zero"} ELSE {})
     ELSE IF ~IsEpOp(e.op) THEN {}
